@@ -70,6 +70,7 @@ def build_ops(hist, txns):
                 o[k] = c[k]
         ops.append(o)
         ops.append({"op": "send", "conn": "t%d" % i, "data": "LHLO x\r\n", "until": "lmtp:1"})
+        ops.append({"op": "c01_usage"})
         ops.append({"op": "c01_txn", "conn": "t%d" % i, "from": "a@example.com", "rcpts": t["rs"], "data": t["msg"]["raw"]})
         ops.append({"op": "dump"})
         tpos.append(len(ops) - 2)
@@ -189,6 +190,26 @@ class Scen:
         # the recipients accepted at RCPT time (250): the positions of the transaction
         self.rcpt_codes = [codes_of(obs[p].get("rcpt")) for p in tpos]
         self.acc = [[r for r, c in zip(t["rs"], rc) if c == 250] for t, rc in zip(self.txns, self.rcpt_codes)]
+        # the quota verdict, measured: usage of the store the recipient would be filed into when the
+        # message arrives (role store | store of the enabled user | nothing yet) + size > limit
+        self.over = []
+        for ti, (t, p) in enumerate(zip(self.txns, tpos)):
+            c = cfg_of(t)
+            ov = []
+            if c.get("quota_enabled"):
+                sh = obs[p - 4]["stores"].get("shared", {}) if ti > 0 else obs[pre]["stores"].get("shared", {})
+                usage = {}
+                for name, v in (obs[p - 1].get("usage") or {}).items():
+                    k = key_of_store(name, sh)
+                    if k is not None:
+                        usage[k] = int(v)
+                enabled = set(("user", r[1], r[2]) for r in (sh.get("users") or []) if r[3] in (1, True))
+                for r in sorted(set(self.acc[ti])):
+                    k = key_of_rcpt(r)
+                    u = usage.get(k, 0) if (k is not None and (k[0] == "role" or k in enabled)) else 0
+                    if u + len(t["msg"]["raw"]) > c.get("quota_limit", 1073741824):
+                        ov.append(r)
+            self.over.append(ov)
         # fetched literals and STATUS counts: (key, folder) -> {uid: literal}
         self.fetch, self.status = {}, {}
         for (addr, kind, fo, tag, p) in fpos:
@@ -278,8 +299,9 @@ class Scen:
         ts = []
         for ti, t in enumerate(self.txns):
             c = cfg_of(t)
-            ts.append("(mkCfg %s %s %s, %s, %s, %s)" % (C.coq_str(c["folder"]), C.coq_z(c.get("max_size", BIG)), C.coq_bool(c.get("quota_enabled", False)),
-                                                      C.coq_list([C.coq_str(r) for r in self.acc[ti]]), coq_parsed(t["msg"]), C.coq_z(len(t["msg"]["raw"]))))
+            ts.append("(mkCfg %s %s %s, %s, %s, %s, %s)" % (C.coq_str(c["folder"]), C.coq_z(c.get("max_size", BIG)), C.coq_bool(c.get("quota_enabled", False)),
+                                                          C.coq_list([C.coq_str(r) for r in self.over[ti]]),
+                                                          C.coq_list([C.coq_str(r) for r in self.acc[ti]]), coq_parsed(t["msg"]), C.coq_z(len(t["msg"]["raw"]))))
         ts = C.coq_list(ts)
         os_ = []
         for ti in range(len(self.txns) + 1):
@@ -515,7 +537,7 @@ def run(chk):
     n_scen, hist_len = (96, 14) if quick else (1500, 30)
     items = [gen_scenario(chk.rng, i, hist_len, copy_ok) for i in range(n_scen)]
     kinds, rk, combos, cfgk = {}, {}, set(), {}
-    refused_rcpt = oversize = 0
+    refused_rcpt = oversize = over_q = 0
     batch = 48
     sample_done = False
     for b in range(0, len(items), batch):
@@ -545,7 +567,8 @@ def run(chk):
                 for ck in t.get("cfg_kinds", ["default"]):
                     cfgk[ck] = cfgk.get(ck, 0) + 1
                 refused_rcpt += len(t["rs"]) - len(sc.acc[ti])
-                if sc.codes[ti] and all(c == 552 for c in sc.codes[ti]):
+                over_q += sum(1 for r in sc.acc[ti] if r in sc.over[ti])
+                if sc.codes[ti] and len(t["msg"]["raw"]) > cfg_of(t).get("max_size", BIG):
                     oversize += 1
                 if any(200 <= c < 300 for c in sc.codes[ti]):
                     combos.add((t["msg"]["kind"], tuple(sorted(set(sc.acc[ti]))), len(sc.acc[ti]) != len(set(sc.acc[ti])), folder_of(t), tuple(t.get("cfg_kinds", [])),
@@ -570,6 +593,7 @@ def run(chk):
     chk.cov["configuration_kinds"] = cfgk
     chk.cov["recipients_refused_at_rcpt"] = refused_rcpt
     chk.cov["transactions_refused_oversize_552"] = oversize
+    chk.cov["positions_over_quota_measured"] = over_q
     chk.cov["transactions_outside_classes"] = stats["clean"]
     chk.cov["transactions_outside_classes_spec_holds_on_impl"] = stats["clean_ok"]
     chk.cov["known_class_hits"] = stats["known"]
@@ -594,7 +618,7 @@ def replay(path):
     evs, log = evaluate([sc], PID + "_replay")
     print("history ops:", sc.h.model_ops)
     for ti, t in enumerate(sc.txns):
-        print("transaction %d: cfg %r recipients %r (accepted at RCPT: %r) message %s (%d bytes) -> replies %r" % (ti, cfg_of(t), t["rs"], sc.acc[ti], t["msg"]["kind"], len(t["msg"]["raw"]), sc.finals[ti]))
+        print("transaction %d: cfg %r recipients %r (accepted at RCPT: %r, over quota by measurement: %r) message %s (%d bytes) -> replies %r" % (ti, cfg_of(t), t["rs"], sc.acc[ti], sc.over[ti], t["msg"]["kind"], len(t["msg"]["raw"]), sc.finals[ti]))
     print("[(agreement, class, model replies)] (element 0 = world before the first transaction):", evs[0] if evs else log[-1500:])
     for v in sc.viol:
         print("observed violation:", v)
